@@ -147,6 +147,12 @@ func (e *Engine) verifyContract(c *Contract) (res *UnitResult) {
 			}
 		}
 	}
+	modsChan := false
+	for _, m := range c.Modifies {
+		if strings.TrimSpace(m) == "chan" {
+			modsChan = true
+		}
+	}
 	fr.modsInfo = mods
 	x.entry = st.clone()
 	// requires
@@ -234,6 +240,9 @@ func (e *Engine) verifyContract(c *Contract) (res *UnitResult) {
 		sort.Strings(keys)
 		for _, k := range keys {
 			if exit.heap[k] == x.heapInit(k) || mods[k] == "all" {
+				continue
+			}
+			if strings.HasPrefix(k, "chan.") && modsChan {
 				continue
 			}
 			if strings.HasPrefix(k, "bytes.") || strings.HasPrefix(k, "Cell_") || k == "big.Int.v" {
